@@ -145,7 +145,7 @@ def generate(ctx):
                 hi = 0.5
             if lo is not None and hi is not None and hi <= lo:
                 hi = lo + 1
-            d.update({"min": lo, "max": hi})
+            d.update({"min": lo, "max": hi, "int_target": target in ("plain", "buffer", "nested3") and rng.random() < 0.3})
         else:
             d.update({"order": rng.choice([1, 2, 0.5, 3, float("inf"), round(rng.uniform(0.6, 4.0), 2)]),
                       "scale": rng.choice([1.0, 2.5, -1.0, -0.3, 10, round(rng.choice([-1, 1]) * rng.uniform(0.05, 5.0), 3)]),     # documented: nonzero
@@ -322,6 +322,9 @@ def _post(ctx, desc):
 
     def fresh():
         t = (torch.rand(shape, generator=g) - 0.5) * 8
+        if desc["which"] == "clamp" and desc.get("int_target"):
+            # an integer-typed state tensor (counts): the bounds are documented as int | float, and a fractional bound still binds
+            return t.round().to(torch.int64)
         if desc["which"] == "norm" and desc.get("epsilon"):
             t = t + torch.sign(t) * 0.5       # |entries| >= 0.5: every non-zero norm is far above the largest epsilon drawn
         if desc["which"] == "norm" and desc.get("tiny_row") and not desc.get("epsilon"):
@@ -403,6 +406,8 @@ def _post(ctx, desc):
         return ctx.violation(ctx.exc_signature(e, f"post.{desc['which']}.construct.{target}"), f"{type(e).__name__}: {str(e)[:140]}", desc)
     ctx.case(f"post/{desc['which']}/{target}/" + (f"min{desc['min']}/max{desc['max']}" if desc["which"] == "clamp" else
              f"p{desc['order']}/s{desc['scale']}/dim{desc['dim']}/zero{int(bool(desc.get('zero_row')))}") + f"/{'pre' if desc['pre'] else 'post'}")
+    if desc["which"] == "clamp" and desc.get("int_target"):
+        ctx.count("clamped_integer_typed_targets")
     nv0 = len(_POST["violations"])
     e0 = _POST["clamp_evals"] + _POST["norm_evals"]
     ce0 = _POST.get("complex_scale_evals", 0)
